@@ -28,11 +28,14 @@ Record set_case := {
   sc_probes : list N;
   sc_bins : list (N * N);                 (* trie.Prefix2bin128 of every prefix *)
   sc_has : list bool;                     (* NewTrieFromPrefixes(ps).HasPrefix(bin(probe)) *)
-  sc_keys : list (N * list N);            (* lifted cidrToBpfLpmKey: prefixlen, 4 words *)
-  sc_probe_words : list (list N);         (* common.Ipv6ByteSliceToUint32Array(probe) *)
+  sc_keys : list (N * N);                 (* lifted cidrToBpfLpmKey: prefixlen, the 4 words packed (word i at bit 32*i) *)
+  sc_probe_words : list N;                (* common.Ipv6ByteSliceToUint32Array(probe), packed likewise *)
   sc_canon : list prefix;                 (* canonicalizePrefixes *)
   sc_hash : N                             (* hashLpmSet(canonical) *)
 }.
+
+Definition unpack4 (x : N) : list N :=
+  map (fun i => N.land (N.shiftr x (32 * i)) 0xffffffff) [0; 1; 2; 3].
 
 Definition err (i code : N) (ok : bool) : list (N * N) := if ok then [] else [(i, code)].
 
@@ -50,33 +53,39 @@ Fixpoint zip_check {A B} (f : N -> A -> B -> list (N * N)) (xs : list A) (ys : l
 Definition check_set_case (c : set_case) : list (N * N) :=
   let big := sc_big c in
   let ps := sc_prefixes c in
-  let ikeys := map (fun k => {| lk_prefixlen := fst k; lk_data := snd k |}) (sc_keys c) in
+  let inodes := map (fun k => lpm_node_of_key big {| lk_prefixlen := fst k; lk_data := unpack4 (snd k) |}) (sc_keys c) in
+  let mnodes := lpm_map_of big ps in                 (* = the map kernel_match looks up in *)
+  let mtrie := new_trie_from_prefixes ps in          (* = the trie trie_match looks up in *)
+  let mcanon := canonicalize ps in
   zip_check (fun i p b =>
-               err i 1 (pairN_eqb b (bin_code (prefix2bin128 p)))
-               ++ err i 2 (pairN_eqb b (bin_code (prefix_bits p)))
-               ++ err i 3 (pairN_eqb (bin_code (prefix2bin128 p)) (bin_code (prefix_bits p))))
+               let m := bin_code (prefix2bin128 p) in
+               let s := bin_code (prefix_bits p) in
+               err i 1 (pairN_eqb b m) ++ err i 2 (pairN_eqb b s) ++ err i 3 (pairN_eqb m s))
             ps (sc_bins c) 0
   ++ zip_check (fun i p k =>
                   let m := cidr_to_lpm_key big p in
-                  err i 7 ((fst k =? lk_prefixlen m) && list_eqb N.eqb (snd k) (lk_data m)))
+                  err i 7 ((fst k =? lk_prefixlen m) && list_eqb N.eqb (unpack4 (snd k)) (lk_data m)))
                ps (sc_keys c) 0
-  ++ zip_check (fun i a h =>
-                  err i 4 (Bool.eqb h (trie_match ps a))
-                  ++ err i 5 (Bool.eqb h (set_contains ps a))
-                  ++ err i 6 (Bool.eqb (trie_match ps a) (set_contains ps a))
-                  ++ err i 9 (Bool.eqb (kernel_match big ps a) (set_contains ps a))
-                  ++ err i 11 (Bool.eqb (set_contains (sc_canon c) a) (set_contains ps a))
-                  ++ err i 12 (Bool.eqb (set_contains (canonicalize ps) a) (set_contains ps a)))
-               (sc_probes c) (sc_has c) 0
-  ++ zip_check (fun i a w =>
-                  let pk := {| lk_prefixlen := 128; lk_data := w |} in
-                  let kern := is_some (lpm_lookup big ikeys pk) in
-                  err i 15 (list_eqb N.eqb w (lk_data (probe_key big a)))
-                  ++ err i 8 (Bool.eqb kern (set_contains ps a))
-                  ++ err i 14 (Bool.eqb kern (nth (N.to_nat i) (sc_has c) false)))
-               (sc_probes c) (sc_probe_words c) 0
-  ++ err 0 10 (list_eqb prefix_eqb (sc_canon c) (canonicalize ps))
-  ++ err 0 13 (sc_hash c =? hash_lpm_set (canonicalize ps)).
+  ++ zip_check (fun i a hw =>
+                  let h : bool := fst hw in
+                  let w : list N := unpack4 (snd hw) in
+                  let s := set_contains ps a in
+                  let tm := has_prefix mtrie (probe_bin a) in
+                  let mk := probe_key big a in
+                  let km := is_some (lpm_lookup mnodes (lpm_node_of_key big mk)) in
+                  (* the datapath copies the packet's address bytes into the lookup key (tproxy.c), whatever Go does *)
+                  let ki := is_some (lpm_lookup inodes (lpm_node_of_key big mk)) in
+                  err i 4 (Bool.eqb h tm) ++ err i 5 (Bool.eqb h s) ++ err i 6 (Bool.eqb tm s)
+                  ++ err i 9 (Bool.eqb km s)
+                  ++ err i 11 (Bool.eqb (set_contains (sc_canon c) a) s)
+                  ++ err i 12 (Bool.eqb (set_contains mcanon a) s)
+                  ++ err i 15 (list_eqb N.eqb w (lk_data mk))
+                  ++ err i 8 (Bool.eqb ki s)
+                  ++ err i 14 (Bool.eqb ki h))
+               (sc_probes c) (combine (sc_has c) (sc_probe_words c)) 0
+  ++ err 0 98 (Nat.eqb (length (sc_has c)) (length (sc_probe_words c)))
+  ++ err 0 10 (list_eqb prefix_eqb (sc_canon c) mcanon)
+  ++ err 0 13 (sc_hash c =? hash_lpm_set mcanon).
 
 (* signature: (#probes matched, #probes not matched, feature bits of the set) *)
 Definition flag (b : bool) (v : N) : N := if b then v else 0.
@@ -127,18 +136,18 @@ Definition check_builder_case (c : builder_case) : list (N * N) :=
   let specs := map spec_rule_of rs in
   let irules := map (fun ri => {| r_role := r_role (fst ri); r_not := r_not (fst ri); r_index := snd ri;
                                   r_values := r_values (fst ri) |}) (combine rs (bc_indices c)) in
+  let opt_eq (x : option (option N)) (y : option N) := match x with Some v => optN_eqb v y | None => false end in
   err 0 20 (list_eqb N.eqb (bc_indices c) (map r_index rs))
   ++ err 0 21 (list_eqb (list_eqb prefix_eqb) (bc_tries c) (b_tries b))
   ++ err 0 26 (share_ok (combine (bc_indices c) (map r_values rs)))
   ++ zip_check (fun i k m =>
                   let s := first_hit specs k 0 in
+                  let mm := match_rules (b_tries b) rs k in
                   err i 22 (optN_eqb m s)
-                  ++ err i 23 (match match_rules (b_tries b) rs k 0 with Some x => optN_eqb m x | None => false end)
-                  ++ err i 24 (match match_rules (b_tries b) rs k 0 with Some x => optN_eqb x s | None => false end)
-                  ++ err i 25 (match match_rules_kernel (bc_big c) (b_tries b) rs k 0 with
-                               | Some x => optN_eqb x s | None => false end)
-                  ++ err i 27 (match match_rules_kernel (bc_big c) (bc_tries c) irules k 0 with
-                               | Some x => optN_eqb x s | None => false end))
+                  ++ err i 23 (opt_eq mm m)
+                  ++ err i 24 (opt_eq mm s)
+                  ++ err i 25 (opt_eq (match_rules_kernel (bc_big c) (b_tries b) rs k) s)
+                  ++ err i 27 (opt_eq (match_rules_kernel (bc_big c) (bc_tries c) irules k) s))
                (bc_packets c) (bc_matches c) 0.
 
 (* signature: (#rules, #rules sharing an earlier rule's index, #stored sets, #distinct outcomes) *)
@@ -157,3 +166,28 @@ Definition builder_signature (c : builder_case) : N * N * N * N :=
                      | x :: l' => (if existsb (optN_eqb x) seen then 0 else 1) + go l' (x :: seen)
                      end) outs [] in
   (N.of_nat (length idx), shared, N.of_nat (length (b_tries b)), distinct).
+
+(* ---------------- DNS response routing ---------------- *)
+Record resp_case := {
+  rc_rules : list resp_rule;
+  rc_answers : list (list N);
+  rc_matches : list (option N)            (* ResponseMatcher.Match: index of the rule that hit *)
+}.
+(* codes.  impl<>model: 30   impl<>spec: 31   model<>spec: 32 *)
+Definition check_resp_case (c : resp_case) : list (N * N) :=
+  let specs := resp_spec_rules (rc_rules c) in
+  zip_check (fun i ips m =>
+               let s := response_first_hit specs ips 0 in
+               let mm := response_match (rc_rules c) ips in
+               err i 30 (optN_eqb m mm) ++ err i 31 (optN_eqb m s) ++ err i 32 (optN_eqb mm s))
+            (rc_answers c) (rc_matches c) 0.
+(* signature: (#rules, #distinct outcomes, #lookups with more than one address) *)
+Definition resp_signature (c : resp_case) : N * N * N :=
+  let outs := map (fun ips => response_first_hit (resp_spec_rules (rc_rules c)) ips 0) (rc_answers c) in
+  let distinct := (fix go (l : list (option N)) (seen : list (option N)) : N :=
+                     match l with
+                     | [] => 0
+                     | x :: l' => (if existsb (optN_eqb x) seen then 0 else 1) + go l' (x :: seen)
+                     end) outs [] in
+  (N.of_nat (length (rc_rules c)), distinct,
+   N.of_nat (length (filter (fun ips => Nat.ltb 1 (length ips)) (rc_answers c)))).
